@@ -134,7 +134,7 @@ func parseContracts(path string) (*Contracts, error) {
 						return nil, fmt.Errorf("%s:%d: bad header %q", path, ln, txt)
 					}
 				}
-			case "spec", "lemma", "functype", "table", "rule", "ghost", "typeinv", "extern":
+			case "spec", "lemma", "functype", "table", "rule", "ghost", "typeinv", "extern", "axiom":
 				cur.Target = strings.Join(strings.Fields(txt[len(cur.Kind):]), " ")
 			default:
 				return nil, fmt.Errorf("%s:%d: unknown block kind %q", path, ln, cur.Kind)
